@@ -302,10 +302,45 @@ func runC11(c c11Case, rec *ev.Recorder) *Failure {
 			}
 			height++
 			ctx = ctx.WithBlockHeight(height)
+			type holding struct {
+				actor int
+				val   sdk.ValAddress
+			}
+			pendBefore := map[string]sdkmath.Int{}
+			var holdings []holding
+			for i := 0; i < 4; i++ {
+				for _, vv := range vals {
+					if e.shares(ctx, e.actorAddr(i), vv).IsPositive() {
+						holdings = append(holdings, holding{i, vv})
+						pendBefore[fmt.Sprintf("%d/%s", i, vv)] = e.pending(ctx, e.actorAddr(i), vv)
+					}
+				}
+			}
 			if err := f.App.DistrKeeper.AllocateTokens(ctx, total, votes); err != nil {
 				return failf("harness", "allocate: %v", err)
 			}
 			rewardsAccrued = true
+			// entitlements: what one allocation adds to a delegator's pending rewards is proportional to its shares
+			// (all delegators of one validator compared pairwise; tolerance for the truncation of stakes and payouts)
+			for x := 0; x < len(holdings); x++ {
+				for y := x + 1; y < len(holdings); y++ {
+					hx, hy := holdings[x], holdings[y]
+					if !hx.val.Equals(hy.val) {
+						continue
+					}
+					dx := e.pending(ctx, e.actorAddr(hx.actor), hx.val).Sub(pendBefore[fmt.Sprintf("%d/%s", hx.actor, hx.val)])
+					dy := e.pending(ctx, e.actorAddr(hy.actor), hy.val).Sub(pendBefore[fmt.Sprintf("%d/%s", hy.actor, hy.val)])
+					sx, sy := e.shares(ctx, e.actorAddr(hx.actor), hx.val), e.shares(ctx, e.actorAddr(hy.actor), hy.val)
+					// dx/sx == dy/sy  <=>  dx*sy == dy*sx
+					l, r := sdkmath.LegacyNewDecFromInt(dx).Mul(sy), sdkmath.LegacyNewDecFromInt(dy).Mul(sx)
+					diff := l.Sub(r).Abs()
+					tol := l.Abs().Add(r.Abs()).QuoInt64(1_000_000).Add(sx.Add(sy).MulInt64(4)) // 1e-6 relative + a few base units of rounding
+					if diff.GT(tol) {
+						return failf("C11/reward-entitlement-not-proportional", "%s: one allocation added %s to actor %d (%s shares) and %s to actor %d (%s shares) on %s: entitlements do not follow the shares", desc, dx, hx.actor, sx, dy, hy.actor, sy, hx.val)
+					}
+					labels["entitlement-compared"] = true
+				}
+			}
 		case "slash":
 			v, err := f.App.StakingKeeper.GetValidator(ctx, val)
 			if err != nil || !v.IsBonded() {
